@@ -30,6 +30,8 @@ pub enum SAct {
     Respond(u8, u8),
     Kill,
     SetLimit(u8),
+    /// the application calls flush_outgoing_writes()
+    Flush,
 }
 
 pub fn enc(a: SAct) -> u64 {
@@ -44,6 +46,7 @@ pub fn enc(a: SAct) -> u64 {
         SAct::Respond(i, s) => 8 << 32 | (s as u64) << 8 | i as u64,
         SAct::Kill => 9 << 32,
         SAct::SetLimit(l) => 10 << 32 | l as u64,
+        SAct::Flush => 11 << 32,
     }
 }
 pub fn dec(x: u64) -> SAct {
@@ -59,6 +62,7 @@ pub fn dec(x: u64) -> SAct {
         8 => SAct::Respond(lo as u8, (lo >> 8) as u8),
         9 => SAct::Kill,
         10 => SAct::SetLimit(lo as u8),
+        11 => SAct::Flush,
         _ => panic!("bad action"),
     }
 }
@@ -152,6 +156,8 @@ pub struct SrvCfg {
     pub yield_promptly: bool,
     /// C18: the kill switch is installed after start_server() instead of before
     pub kill_switch_late: bool,
+    /// flush_outgoing_writes() is an explored application action
+    pub flush_action: bool,
 }
 
 impl SrvCfg {
@@ -180,6 +186,7 @@ impl SrvCfg {
             closure_c11: false,
             yield_promptly: false,
             kill_switch_late: false,
+            flush_action: false,
         }
     }
     pub fn to_json(&self) -> Value {
@@ -194,7 +201,7 @@ impl SrvCfg {
             "max_depth": self.max_depth, "closure_all": self.closure_all, "closure_witness": self.closure_witness,
             "release_check": self.release_check, "flush_probe": self.flush_probe, "twin_without_kill": self.twin_without_kill,
             "respond_any": self.respond_any, "max_outstanding_for_respond": self.max_outstanding_for_respond,
-            "never_yield": self.never_yield, "must_yield_after": self.must_yield_after, "closure_c11": self.closure_c11, "yield_promptly": self.yield_promptly, "kill_switch_late": self.kill_switch_late,
+            "never_yield": self.never_yield, "must_yield_after": self.must_yield_after, "closure_c11": self.closure_c11, "yield_promptly": self.yield_promptly, "kill_switch_late": self.kill_switch_late, "flush_action": self.flush_action,
         })
     }
     pub fn from_json(v: &Value) -> SrvCfg {
@@ -247,6 +254,7 @@ impl SrvCfg {
             closure_c11: b("closure_c11"),
             yield_promptly: b("yield_promptly"),
             kill_switch_late: b("kill_switch_late"),
+            flush_action: b("flush_action"),
         }
     }
 }
@@ -295,6 +303,9 @@ struct Client {
     /// the application supplied a response after this client shut down its read side: the
     /// server has (after fair completion) attempted a write that must have failed
     answered_after_shut_rd: bool,
+    /// after this client shut down its read side the server handled a writability event for
+    /// its connection while output was pending: that write can only have failed
+    write_failed_known: bool,
     /// stream offset up to which the server had consumed this client's bytes before the current poll
     consumed_before_poll: usize,
 }
@@ -450,6 +461,7 @@ impl<'a> World<'a> {
                 yielded: 0,
                 supplied: vec![],
                 answered_after_shut_rd: false,
+                write_failed_known: false,
                 consumed_before_poll: 0,
             });
         }
@@ -586,6 +598,15 @@ impl<'a> World<'a> {
                 }
                 self.note("Kill", json!({}));
                 self.log.push("kill".into());
+            }
+            SAct::Flush => {
+                let r = util::catch(|| self.server.as_mut().unwrap().flush_outgoing_writes());
+                self.note("Flush (flush_outgoing_writes)", json!({}));
+                self.log.push("flush".into());
+                if let Err(p) = r {
+                    return self.fail("panic", format!("flush_outgoing_writes panicked: {}", p));
+                }
+                self.check_descriptors("after flush_outgoing_writes()");
             }
             SAct::SetLimit(l) => {
                 let lim = self.cfg.limits[l as usize];
@@ -762,6 +783,7 @@ impl<'a> World<'a> {
         let kill_pos = batch.iter().position(|(fd, _)| *fd == kill_fd);
         let mut accepted_desc = String::new();
         let mut accepted_trace = String::new();
+        let mut refused_below: Option<(usize, usize)> = None;
         if let Some(lp) = listener_pos {
             let newfds: Vec<RawFd> = after.difference(&before).cloned().collect();
             let reached = match &r {
@@ -792,9 +814,19 @@ impl<'a> World<'a> {
                     } else {
                         self.clients[c].refused = true;
                         self.facts |= 1 << 4;
+                        if before.len() < 10 {
+                            refused_below = Some((c, before.len()));
+                        }
                         accepted_desc = format!("refused client {}", c);
                         accepted_trace = accepted_desc.clone();
                     }
+                }
+            }
+        }
+        for c in self.clients.iter_mut() {
+            if let Some(sfd) = c.server_fd.or_else(|| None) {
+                if c.shut_rd && before_states.get(&sfd) == Some(&1) && batch.iter().any(|(b, ev)| *b == sfd && ev & 0x4 != 0) {
+                    c.write_failed_known = true;
                 }
             }
         }
@@ -803,6 +835,10 @@ impl<'a> World<'a> {
             if *st == 1 && before_states.get(fd) == Some(&1) && batch.iter().any(|(b, ev)| b == fd && ev & 0x4 != 0) {
                 self.facts |= 1 << 5;
             }
+        }
+        if let Some((c, n)) = refused_below {
+            self.note("Poll", json!({"order": order, "batch": format!("{:?}", batch), "accept": accepted_trace}));
+            return self.fail("refused-below-capacity", format!("client {} was turned away although only {} connections were open when the server handled the listener event", c, n));
         }
         let mut yielded_desc = vec![];
         match r {
@@ -1168,6 +1204,9 @@ impl<'a> World<'a> {
         if self.cfg.kill_action && self.kill.is_some() {
             v.push(SAct::Kill);
         }
+        if self.cfg.flush_action && self.server_table().iter().any(|e| e.1 == 1) {
+            v.push(SAct::Flush);
+        }
         for l in 0..self.cfg.limits.len() {
             if self.cfg.limits[l] != self.limit {
                 v.push(SAct::SetLimit(l as u8));
@@ -1303,7 +1342,7 @@ impl<'a> World<'a> {
     }
 
     /// C09 closure: a fresh witness completes a round trip; afterwards dead connections are gone.
-    pub fn closure_witness(&mut self, w: usize) {
+    pub fn closure_witness(&mut self, w: usize, order: u32) {
         let budget = self.budget() + 40;
         if !self.clients[w].connected {
             self.connect(w);
@@ -1330,7 +1369,7 @@ impl<'a> World<'a> {
             }
             if self.epoll_readable() && polls < budget {
                 let before = self.key();
-                self.poll(0);
+                self.poll(order);
                 polls += 1;
                 if self.violation.is_some() {
                     return;
@@ -1431,6 +1470,10 @@ impl<'a> World<'a> {
                     }
                     Some(2) => {
                         who.push(format!("client {} shut RD, a write failed and the server marked it closed: must be gone", i));
+                        continue;
+                    }
+                    Some(_) if c.write_failed_known => {
+                        who.push(format!("client {} shut RD and the server has since handled a writability event with output pending (that write failed): must be gone", i));
                         continue;
                     }
                     Some(_) => {
@@ -1566,13 +1609,16 @@ impl SrvCfg {
             }
         }
         if let Some(wi) = self.witness_index() {
-            let mut w = self.execute(path, tracing, self.kill_switch);
-            let n0 = w.steps.len();
-            w.closure_witness(wi);
-            if let Some(v) = w.violation.take() {
-                let mut st = vec![json!({"probe": "closure_witness"})];
-                st.extend(w.steps.drain(n0..));
-                return (Some(v), st);
+            // the witness's events may be handled before or after the other clients' in a batch
+            for order in [0u32, 1000] {
+                let mut w = self.execute(path, tracing, self.kill_switch);
+                let n0 = w.steps.len();
+                w.closure_witness(wi, order);
+                if let Some(v) = w.violation.take() {
+                    let mut st = vec![json!({"probe": format!("closure_witness(batch order {})", order)})];
+                    st.extend(w.steps.drain(n0..));
+                    return (Some(v), st);
+                }
             }
         }
         if self.release_check {
@@ -1668,7 +1714,7 @@ impl System for SrvCfg {
             obs,
             nontrivial,
             facts,
-            impl_facts: 0,
+            impl_facts: 0, aux: 0,
         }
     }
     fn trace(&self, path: &[SAct]) -> Value {
